@@ -60,6 +60,16 @@ ONE = {
     'C13e': 'dump/dumps build the pickler through a helper that forwards the protocol only when it is truthy: protocol 0 silently becomes the default protocol',
     'C17e': 'restart() of a never-used, live, not closed worker returns at once ("nothing to restart"): same child, same id',
     'C20e': 'ProcessWorker._start waits with a plain recv() for the identity message instead of connection.wait([pipe, sentinel]): a child that dies during start-up blocks the constructor for ever',
+    'C02f': 'Worker.create caches the implementing class in a class-level dict keyed by worker type only, shared by Worker and PersistentWorker: after Pool.add_worker(WorkerType.X) Worker.create(X, ...) builds a PERSISTENT worker that never calls the target with the given arguments',
+    'C03f': 'PersistentProcessWorker._send_result catches Exception around the put and sends the exception instead (same slip as C06e, found independently for C03): a terminate landing there is swallowed, the worker ends with a normal outcome',
+    'C07f': 'try_enqueue fetches the NEXT input before retrying after an enqueue that raised on a live worker: the failed input is neither pending nor re-queued, run() returns normally with a result missing',
+    'C09f': 'Pool.run recomputes _closed from is_alive() at the start of every run: a worker whose end an earlier run registered but whose process lingers is handed work again',
+    'C12f': 'the clean-up loop of the context helper removes each reaped worker from the list it iterates (same slip as C18c, found independently for C12): every second worker inside a context survives the server',
+    'C16f': 'the child sends its user_state only when it is a different OBJECT from the one it started with: a mutable state updated in place is never sent, the parent keeps the construction-time value',
+    'C14f': 'the one-shot __setstate__ wrapper jumps back to the frame-stack position recorded at re-creation: loading raises AssertionError for shared children, self references and cycles',
+    'C15f': 'the pickler tests direct children with isinstance(obj, SupportRemoteGetState) instead of issubclass(type(obj), ...): the metaclass overrides __subclasscheck__ only, duck-typed / metaclass-only children get no frame and take their parent\'s patches',
+    'C18f': 'the server refuses a duplicate context id only if the stored context is_alive() - a client-side flag that is False in the server\'s copy: every duplicate registration replaces the live context',
+    'C19f': 'register_child appends without the "already registered" test: a restarted worker whose dead incarnation was not pruned is yielded twice',
     'C19e': 'the registry of active children becomes a dict keyed by worker id (setdefault): a new worker whose id equals that of a dead, not yet pruned one is never registered',
 }
 for d in sorted(glob.glob('/verif/seeded/*/')):
